@@ -148,7 +148,21 @@ pub async fn run_case(sc: &Value) {
     let mut rng = Rng(0x9E3779B97F4A7C15 ^ (id + 1).wrapping_mul(0xD1342543DE82EF95) ^ sc["seed"].as_u64().unwrap_or(1));
     let mut frag = Vec::new();
     let fnc;
-    if sc.get("c1").is_some() {
+    if sc.get("at").is_some() {
+        let a = &sc["at"];
+        fnc = a["fnc"].as_str().unwrap_or("write").to_string();
+        app_header(&fnc, &mut frag);
+        let set = a["set"].as_u64().unwrap_or(0) as u8;
+        frag.extend_from_slice(&[0, a["v"].as_u64().unwrap_or(0) as u8, 0, set, set]);
+        frag.push(a["code"].as_u64().unwrap_or(0) as u8);
+        let len = a["len"].as_u64().unwrap_or(0) as usize;
+        frag.push(len as u8);
+        let code = a["code"].as_u64().unwrap_or(0);
+        for i in 0..(len as i64 + a["delta"].as_i64().unwrap_or(0)).max(0) {
+            // visible strings must be printable; lists are pairs (variation, properties)
+            frag.push(if code == 1 { b'a' + (i % 26) as u8 } else { rng.next() });
+        }
+    } else if sc.get("c1").is_some() {
         fnc = sc["c1"]["fnc"].as_str().unwrap_or("resp").to_string();
         app_header(&fnc, &mut frag);
         header_bytes(&sc["c1"], sc["n1"].as_i64().unwrap_or(0), &mut rng, &mut frag);
@@ -161,7 +175,7 @@ pub async fn run_case(sc: &Value) {
     let as_request = fnc != "resp";
     // the object-values level forces every lazy iterator; other levels are cycled through as well
     let mut line = serde_json::Map::new();
-    line.insert("k".into(), json!(if sc.get("c1").is_some() { "pair" } else { "case" }));
+    line.insert("k".into(), json!(if sc.get("at").is_some() { "attr" } else if sc.get("c1").is_some() { "pair" } else { "case" }));
     line.insert("id".into(), json!(id));
     line.insert("len".into(), json!(frag.len()));
     let f2 = frag.clone();
@@ -182,7 +196,8 @@ pub async fn run_case(sc: &Value) {
                         .iter()
                         .map(|h| {
                             json!({"g": h.group, "v": h.variation, "q": h.qualifier, "count": h.count,
-                                   "first": h.first.map(|x| x as i64).unwrap_or(-1), "last": h.last.map(|x| x as i64).unwrap_or(-1)})
+                                   "first": h.first.map(|x| x as i64).unwrap_or(-1), "last": h.last.map(|x| x as i64).unwrap_or(-1),
+                                   "attr": h.attr})
                         })
                         .collect(),
                 ),
